@@ -198,7 +198,11 @@ def _run(case, universe):
                     exp, got = len(cur), sdb.cnt(ka)
                 else:
                     exp, got = list(cur), sdb.get(ka)
-            if got != exp:
+            # what a READ returns is what "a dictionary of values, lists or ordered sets would" return; what a mutator
+            # (put / add / pin / rem) returns besides its effect is not defined by that model: the effect is judged by the
+            # full read-back below
+            reads = ("get", "getFirst", "getLast", "cnt") + (("pop",) if kind != "suber" else ())
+            if name in reads and got != exp:
                 r.fail("C24/%s-return(%s)%s" % (kind, name, tag), "step %d %s(%r, %r) returned %r, model %r; state %r" % (
                     n, name, ka, op[2], got, exp, {k2: v for k2, v in model.items() if v}))
                 break
